@@ -20,8 +20,8 @@ LEVEL_NOTE = ('trusted: R2 (60 lines, from the spec text), the shim mount rules 
               'permission-based unusability (non-root) is not modelled')
 RULE = ('mounts (5) x .Trash (absent, sticky dir, non-sticky dir, symlink->sticky dir, regular file) x .Trash/uid (absent, present) x '
         '.Trash-uid (absent, dir, file) x file location (home vol, other vol, nested vol, via cross-volume symlinked parent, '
-        'symlink-to-other-volume-dir spelled with trailing slash) x env (XDG set, unset, empty, HOME unset, both unset) x option '
-        '(-, --trash-dir same vol, other vol, symlinked to other vol) x fallback (off, flag, env, both) x uid (0,1000); quick tier = '
+        'symlink-to-other-volume-dir spelled with trailing slash) x env (XDG set, unset, empty, HOME unset, both unset, $HOME/.local a link to another volume, XDG_DATA_HOME below such a link) x option '
+        '(-, --trash-dir same vol, other vol, symlinked to other vol, below a linked parent) x fallback (off, flag, env, both) x uid (0,1000); quick tier = '
         'sub-lattice (uid 0, 3 mount layouts, 3 options, fallback off/both); non-trivial = a candidate was examined; distinct = '
         'R2 verdict class x outcome class x location x env x option x fallback')
 MOUNTS = {'root-only': ['/'], 'v1': ['/', '/mnt/v1'], 'home': ['/', '/home'],
@@ -29,15 +29,15 @@ MOUNTS = {'root-only': ['/'], 'v1': ['/', '/mnt/v1'], 'home': ['/', '/home'],
 TOPS = ['absent', 'sticky', 'nonsticky', 'symlink', 'file']
 ALTS = ['absent', 'dir', 'file']
 LOCS = ['home', 'other', 'nested', 'via-symlink', 'linkdir-slash']
-ENVS = ['xdg', 'unset', 'empty', 'nohome', 'none']
-OPTS = ['-', 'td-same', 'td-other', 'td-symlink']
+ENVS = ['xdg', 'unset', 'empty', 'nohome', 'none', 'local-link', 'xdg-under-link']
+OPTS = ['-', 'td-same', 'td-other', 'td-symlink', 'td-under-link']
 FBS = ['off', 'flag', 'env', 'both']
 
 
 def dimensions(tier):
     q = tier != 'thorough'
-    return {'mounts': 3 if q else 5, 'top': 5, 'top_uid': 2, 'alt': 3, 'location': 5, 'env': 5,
-            'option': 3 if q else 4, 'fallback': 2 if q else 4, 'uid': 1 if q else 2}
+    return {'mounts': 3 if q else 5, 'top': 5, 'top_uid': 2, 'alt': 3, 'location': 5, 'env': 7,
+            'option': 4 if q else 5, 'fallback': 2 if q else 4, 'uid': 1 if q else 2}
 
 
 def cases(tier):
@@ -46,7 +46,7 @@ def cases(tier):
     for uid in ([0] if q else [0, 1000]):
         for m in (['v1', 'home', 'nested'] if q else list(MOUNTS)):
             for fb in (['off', 'both'] if q else FBS):
-                for o in (['-', 'td-same', 'td-other'] if q else OPTS):
+                for o in (['-', 'td-same', 'td-other', 'td-under-link'] if q else OPTS):
                     for e in ENVS:
                         for loc in LOCS:
                             for alt in ALTS:
@@ -62,12 +62,17 @@ def cases(tier):
 def run_case(c):
     mounts = MOUNTS[c['m']]
     uid = c['uid']
-    env = {'xdg': {'HOME': '/home/u', 'XDG_DATA_HOME': '/home/u/xdg'}, 'unset': {'HOME': '/home/u'},
+    env = {'local-link': {'HOME': '/home/u'}, 'xdg-under-link': {'HOME': '/home/u', 'XDG_DATA_HOME': '/home/u/dl/xdg'},
+           'xdg': {'HOME': '/home/u', 'XDG_DATA_HOME': '/home/u/xdg'}, 'unset': {'HOME': '/home/u'},
            'empty': {'HOME': '/home/u', 'XDG_DATA_HOME': ''}, 'nohome': {'XDG_DATA_HOME': '/home/u/xdg'}, 'none': {}}[c['env']]
     if c['fb'] in ('env', 'both'):
         env['TRASH_ENABLE_HOME_FALLBACK'] = '1'
     W = scen.base_world(mounts=mounts, env=env, uid=uid, cwd='/home/u/w')
     W.dir('/mnt/v1/w/sub').dir('/mnt/v1/inner/w').dir('/mnt/v2/w').dir('/home/u/xdg')
+    if c['env'] == 'local-link':
+        W.dir('/mnt/v1/ext/local').link('/home/u/.local', '/mnt/v1/ext/local')       # an ANCESTOR of the home trash is a link
+    if c['env'] == 'xdg-under-link':
+        W.dir('/mnt/v1/ext/dl').link('/home/u/dl', '/mnt/v1/ext/dl')
     for m in mounts:
         mm = m.rstrip('/')
         if c['top'] == 'sticky':
@@ -116,6 +121,10 @@ def run_case(c):
         W.dir(tgt)
         T = E.rsplit('/', 2)[0] + '/linktrash'
         W.link(T, tgt)
+    elif c['opt'] == 'td-under-link':
+        W.dir('/mnt/v2/far')
+        W.link(E.rsplit('/', 2)[0] + '/farlink', '/mnt/v2/far')
+        T = E.rsplit('/', 2)[0] + '/farlink/mytrash'                                  # the trash dir's PARENT is a link
     if T:
         argv += ['--trash-dir', T]
     if c['fb'] in ('flag', 'both'):
